@@ -177,7 +177,10 @@ func (f *FieldCopyFromGenerator) genPrimitive() *j.Statement {
 					j.Id("obj." + f.ParentIsOptionalEmbedFieldName).Op("=").Id("&" + f.ParentIsOptionalEmbedFullType + "{}"),
 				)
 				g.Id("obj." + f.Name).Op("=").Id("t")
-			})
+			}).Else().If(j.Id("obj." + f.ParentIsOptionalEmbedFieldName).Op("!=").Nil()).Block(
+				// The target already holds the embedded message: a null or unknown value resets the field
+				j.Id("obj." + f.Name).Op("=").Id("t"),
+			)
 			return
 		}
 
